@@ -19,18 +19,22 @@ import (
 	"encoding/json"
 	"errors"
 	"fmt"
+	"net"
 	"os"
 	"path/filepath"
 	"reflect"
 	"regexp"
 	"sort"
 	"strings"
+	"sync"
 	"testing"
 
+	"github.com/btcsuite/btcwallet/walletdb"
 	"github.com/lightningnetwork/lnd/channeldb"
 	"github.com/lightningnetwork/lnd/chanstate"
 	"github.com/lightningnetwork/lnd/fn/v2"
 	"github.com/lightningnetwork/lnd/input"
+	"github.com/lightningnetwork/lnd/kvdb"
 	"github.com/lightningnetwork/lnd/lnwallet/chainfee"
 	"github.com/lightningnetwork/lnd/lnwire"
 )
@@ -90,6 +94,124 @@ type vchCtx struct {
 	side      [2]*chanstate.OpenChannel
 	sideStamp [2]uint64
 	nSign     int
+
+	// write-level crashes (VERIF_CRASHIN): every party's channel DB sits on
+	// a vchStopDB; backend = "bbolt" | "sqlite" is the kvdb backend below it.
+	db      [2]*vchStopDB
+	backend string
+	crashIn bool
+	maxTx   map[string]int // most transactions one call of a kind committed
+}
+
+// ---------------------------------------------------------------------------
+// kvdb backend under the channel DBs
+
+var errVchStop = errors.New("vch: crash point reached")
+
+// vchSqliteOpen is set by verif_chan_sqlite_test.go (build tag kvdb_sqlite).
+var vchSqliteOpen func(dir string) (kvdb.Backend, error)
+
+// vchStopDB wraps the real kvdb backend of ONE party's channel DB.  It counts
+// the read-write transactions that commit and, when armed with limit = n, lets
+// exactly n more of them commit: every later one fails with errVchStop without
+// touching the database (the process "died" right after the n-th commit).
+// Reads go straight through.
+type vchStopDB struct {
+	kvdb.Backend
+
+	mu        sync.Mutex
+	committed int // Update transactions committed since begin()/arm()
+	refused   int // Update transactions refused since arm()
+	limit     int // -1: unlimited
+	rawTx     int // BeginReadWriteTx calls (not expected from the state machine)
+}
+
+func (d *vchStopDB) Update(f func(tx walletdb.ReadWriteTx) error,
+	reset func()) error {
+
+	d.mu.Lock()
+	defer d.mu.Unlock()
+	if d.limit >= 0 && d.committed >= d.limit {
+		d.refused++
+		return errVchStop
+	}
+	err := d.Backend.Update(f, reset)
+	if err == nil {
+		d.committed++
+	}
+	return err
+}
+
+func (d *vchStopDB) BeginReadWriteTx() (walletdb.ReadWriteTx, error) {
+	d.mu.Lock()
+	defer d.mu.Unlock()
+	d.rawTx++
+	if d.limit >= 0 {
+		d.refused++
+		return nil, errVchStop
+	}
+	return d.Backend.BeginReadWriteTx()
+}
+
+// arm: from now on only n more read-write transactions commit (n < 0: all).
+func (d *vchStopDB) arm(n int) {
+	d.mu.Lock()
+	d.committed, d.refused, d.limit = 0, 0, n
+	d.mu.Unlock()
+}
+
+// disarm lifts the limit and returns (committed, refused) since arm().
+func (d *vchStopDB) disarm() (int, int) {
+	d.mu.Lock()
+	defer d.mu.Unlock()
+	d.limit = -1
+	return d.committed, d.refused
+}
+
+// vchMigrate moves the freshly created channel of lc (CreateTestChannels opens
+// bbolt through channeldb.OpenForTesting) onto a channel DB of its own that
+// lives on the chosen kvdb backend wrapped in a vchStopDB: the complete channel
+// state is written by the same full sync CreateTestChannels itself uses
+// (SyncPending -> SyncPendingChannel -> fullSyncOpenChannel), every later
+// read / write of the channel goes to the new DB.
+func vchMigrate(t *testing.T, lc *LightningChannel, backend string,
+	port int) (*vchStopDB, error) {
+
+	dir := t.TempDir()
+	var (
+		inner kvdb.Backend
+		err   error
+	)
+	switch {
+	case backend == "sqlite" && vchSqliteOpen == nil:
+		err = errors.New("vch: built without verif_chan_sqlite_test.go " +
+			"/ the kvdb_sqlite tag")
+	case backend == "sqlite":
+		inner, err = vchSqliteOpen(dir)
+	default:
+		inner, err = kvdb.GetBoltBackend(&kvdb.BoltBackendConfig{
+			DBPath: dir, DBFileName: "channel.db",
+			NoFreelistSync: true, AutoCompact: false,
+			AutoCompactMinAge: kvdb.DefaultBoltAutoCompactMinAge,
+			DBTimeout:         kvdb.DefaultDBTimeout,
+		})
+	}
+	if err != nil {
+		return nil, err
+	}
+	stop := &vchStopDB{Backend: inner, limit: -1}
+	db, err := channeldb.CreateWithBackend(stop)
+	if err != nil {
+		_ = inner.Close()
+		return nil, err
+	}
+	t.Cleanup(func() { _ = db.Close() })
+	lc.channelState.Db = db.ChannelStateDB()
+	addr := &net.TCPAddr{IP: net.ParseIP("127.0.0.1"), Port: port}
+	if err := lc.channelState.SyncPending(addr, 101); err != nil {
+		return nil, err
+	}
+	return stop, nil
 }
 
 // ---------------------------------------------------------------------------
@@ -113,6 +235,8 @@ func vchClass(err error) string {
 	)
 	s := err.Error()
 	switch {
+	case errors.Is(err, errVchStop), strings.Contains(s, errVchStop.Error()):
+		return "crash_stop"
 	case errors.Is(err, ErrNoWindow):
 		return "no_window"
 	case errors.Is(err, ErrBelowChanReserve):
@@ -272,6 +396,65 @@ func (c *vchCtx) partyDump(lc *LightningChannel) map[string]any {
 		d["own_log"] = vchLogDump(lc.updateLogs.Local)
 		d["peer_log"] = vchLogDump(lc.updateLogs.Remote)
 	}
+	return d
+}
+
+// diskX reads the persisted side tables of the channel that NewLightningChannel
+// / the link consume after a restart (only put into RELOAD dumps, key "diskx"):
+// which of the heights remote_h-1, remote_h, remote_h+1 have a revocation-log
+// entry, the forwarding packages [height, #adds, #settle/fails, state], and the
+// log indexes of the persisted unsignedAckedUpdates / remoteUnsignedLocalUpdates.
+func vchDiskX(cs *chanstate.OpenChannel) map[string]any {
+	out := map[string]any{}
+	revlog := []uint64{}
+	rh := cs.RemoteCommitment.CommitHeight
+	for _, h := range []uint64{rh - 1, rh, rh + 1} {
+		if h == ^uint64(0) {
+			continue
+		}
+		if _, _, err := cs.FindPreviousState(h); err == nil {
+			revlog = append(revlog, h)
+		} else if !errors.Is(err, channeldb.ErrLogEntryNotFound) &&
+			!errors.Is(err, channeldb.ErrNoPastDeltas) {
+
+			out["revlog_err"] = vchClass(err)
+		}
+	}
+	out["revlog"] = revlog
+	pkgs := [][]uint64{}
+	if fp, err := cs.LoadFwdPkgs(); err == nil {
+		for _, f := range fp {
+			pkgs = append(pkgs, []uint64{f.Height, uint64(len(f.Adds)),
+				uint64(len(f.SettleFails)), uint64(f.State)})
+		}
+		sort.Slice(pkgs, func(i, j int) bool {
+			return pkgs[i][0] < pkgs[j][0]
+		})
+	} else {
+		out["fwdpkgs_err"] = vchClass(err)
+	}
+	out["fwdpkgs"] = pkgs
+	idx := func(us []channeldb.LogUpdate, err error) any {
+		if err != nil {
+			return "err:" + vchClass(err)
+		}
+		l := make([]uint64, 0, len(us))
+		for _, u := range us {
+			l = append(l, u.LogIndex)
+		}
+		return l
+	}
+	out["lwr"] = cs.LastWasRevoke
+	out["unsigned_acked"] = idx(cs.UnsignedAckedUpdates())
+	out["remote_unsigned"] = idx(cs.RemoteUnsignedLocalUpdates())
+	return out
+}
+
+// reloadDump: party dump of a channel object just restored from disk, plus the
+// side tables.
+func (c *vchCtx) reloadDump(lc *LightningChannel) map[string]any {
+	d := c.partyDump(lc)
+	d["diskx"] = vchDiskX(lc.channelState)
 	return d
 }
 
@@ -441,6 +624,30 @@ func (c *vchCtx) activeHtlcs(p int) int {
 
 func (c *vchCtx) send(to int, m lnwire.Message) { c.q[to] = append(c.q[to], m) }
 
+// txBegin / txEnd count the read-write transactions p's channel DB commits
+// during one state-machine call (extra.ntx); the per-kind maximum tells the
+// generator how many crash points a call has.
+func (c *vchCtx) txBegin(p int) {
+	if c.db[p] != nil {
+		c.db[p].arm(-1)
+	}
+}
+
+func (c *vchCtx) txEnd(p int, kind string, extra map[string]any) map[string]any {
+	if c.db[p] == nil {
+		return extra
+	}
+	n, _ := c.db[p].disarm()
+	if extra == nil {
+		extra = map[string]any{}
+	}
+	extra["ntx"] = n
+	if c.maxTx != nil && n > c.maxTx[kind] {
+		c.maxTx[kind] = n
+	}
+	return extra
+}
+
 func vchKind(m lnwire.Message) string {
 	switch m.(type) {
 	case *lnwire.UpdateAddHTLC:
@@ -585,6 +792,7 @@ func vchCommitSigMsg(chanID lnwire.ChannelID, st *NewCommitState) (
 
 func (c *vchCtx) doSign(p int) string {
 	var msg *lnwire.CommitSig
+	c.txBegin(p)
 	res := vchSafe(func() error {
 		st, err := c.ch[p].SignNextCommitment(ctxb)
 		if err != nil {
@@ -599,6 +807,7 @@ func (c *vchCtx) doSign(p int) string {
 		extra = map[string]any{"n_htlc_sigs": len(msg.HtlcSigs)}
 		c.nSign++
 	}
+	extra = c.txEnd(p, "sign", extra)
 	c.record([]any{"sign", vchNames[p]}, res, extra)
 	if res != "ok" && res != "no_window" {
 		c.abort = "sign:" + res
@@ -618,12 +827,13 @@ func (c *vchCtx) doRevoke(p int) string {
 	}
 	revH := lc.commitChains.Local.tail().height
 	var msg *lnwire.RevokeAndAck
+	c.txBegin(p)
 	res := vchSafe(func() error {
 		var err error
 		msg, _, _, err = lc.RevokeCurrentCommitment()
 		return err
 	})
-	extra := map[string]any{"rev_height": revH}
+	extra := c.txEnd(p, "revoke", map[string]any{"rev_height": revH})
 	if res == "ok" {
 		want, err := lc.channelState.RevocationProducer.AtIndex(revH)
 		extra["secret_matches"] = err == nil &&
@@ -682,9 +892,11 @@ func (c *vchCtx) doDeliver(p int) string {
 	}
 	m := c.q[p][0]
 	c.q[p] = c.q[p][1:]
+	c.txBegin(p)
 	res := c.deliverMsg(p, m)
 	c.record([]any{"deliver", vchNames[p]}, res,
-		map[string]any{"kind": vchKind(m)})
+		c.txEnd(p, "deliver_"+vchKind(m),
+			map[string]any{"kind": vchKind(m)}))
 	if res != "ok" {
 		c.abort = "deliver_" + vchKind(m) + ":" + res
 	}
@@ -724,7 +936,7 @@ func (c *vchCtx) doCrash(p int) {
 		if err != nil {
 			return err
 		}
-		d = c.partyDump(lc)
+		d = c.reloadDump(lc)
 		return nil
 	})
 	if res == "ok" {
@@ -881,13 +1093,37 @@ func (c *vchCtx) doCut(ka, kb int) {
 		c.record(op, "aborted", extra)
 		return
 	}
+	c.restartBoth(op, extra, -1)
+}
 
-	// Both sides restart from disk.
+// restartBoth: both sides restart from disk (everything in flight has been
+// dropped by the caller), exchange channel_reestablish and queue what
+// ProcessChanSyncMsg returns; records the step.  dead = the party whose live
+// object died inside a state-machine call (its in-memory state is not a
+// reference for anything; -1 = none).
+func (c *vchCtx) restartBoth(op []any, extra map[string]any, dead int) {
 	pre := map[string]any{}
 	for p := 0; p < 2; p++ {
-		pre[vchNames[p]] = c.partyDump(c.ch[p])
+		if p != dead {
+			pre[vchNames[p]] = c.partyDump(c.ch[p])
+		}
 	}
 	extra["pre_reload"] = pre
+	// transactions NewLightningChannel + ChanSyncMsg + ProcessChanSyncMsg
+	// commit on each side (extra.ntx_sync)
+	for p := 0; p < 2; p++ {
+		c.txBegin(p)
+	}
+	ntxSync := map[string]any{}
+	defer func() {
+		for p := 0; p < 2; p++ {
+			if c.db[p] != nil {
+				n, _ := c.db[p].disarm()
+				ntxSync[vchNames[p]] = n
+			}
+		}
+	}()
+	extra["ntx_sync"] = ntxSync
 	for p := 0; p < 2; p++ {
 		var lc *LightningChannel
 		res := vchSafe(func() error {
@@ -905,7 +1141,7 @@ func (c *vchCtx) doCut(ka, kb int) {
 	}
 	reloaded := map[string]any{}
 	for p := 0; p < 2; p++ {
-		reloaded[vchNames[p]] = c.partyDump(c.ch[p])
+		reloaded[vchNames[p]] = c.reloadDump(c.ch[p])
 		// a restarted node hands fresh instances to every subsystem
 		if c.sideOn {
 			_ = c.sideFetch(p)
@@ -967,6 +1203,113 @@ func (c *vchCtx) doCut(ka, kb int) {
 		extra["sync_"+vchNames[p]] = kinds
 	}
 	c.record(op, res, extra)
+}
+
+// doCrashIn is a WRITE-LEVEL crash: p's node dies inside one state-machine
+// call (call = "sign" | "revoke" | "deliver"; deliver = the revoke_and_ack at
+// the head of the queue towards p) right after the k-th read-write
+// transaction that call commits on p's channel DB - the (k+1)-th and every
+// later one fails with errVchStop without touching the DB.  Whatever the call
+// returns is thrown away (the message was never handed to the peer), all
+// messages in flight are lost, p's live object is discarded and, as after every
+// disconnect, BOTH sides rebuild their channel from disk and run the
+// channel_reestablish exchange.  k >= number of transactions of the call =
+// crash right after the complete call.
+//
+//	op    ["crashin", p, call, k]
+//	res   as for cut (ok | reload_failed | sync_failed | sync_error)
+//	extra call_res (class of the interrupted call: ok | crash_stop | ...),
+//	      committed / refused (transactions of the call that committed / were
+//	      refused), reload_before (reload dump of p taken just before the call),
+//	      kind, rev_height (revoke), + everything a cut records
+//	      (pre_reload only for the peer).
+func (c *vchCtx) doCrashIn(p int, call string, k int) {
+	lc := c.ch[p]
+	op := []any{"crashin", vchNames[p], call, k}
+	extra := map[string]any{"delivered": [][]any{},
+		"sync_a": []string{}, "sync_b": []string{},
+		"err_a": nil, "err_b": nil}
+	// enabledness (scripts are replayed verbatim; a disabled call is skipped)
+	enabled := c.db[p] != nil
+	switch call {
+	case "sign":
+	case "revoke":
+		enabled = enabled && c.hasLtip(p)
+	case "deliver":
+		enabled = enabled && len(c.q[p]) > 0
+	default:
+		enabled = false
+	}
+	if !enabled {
+		c.record(op, "no_pending", map[string]any{"mal": 1})
+		return
+	}
+	var before map[string]any
+	if r := vchSafe(func() error {
+		old, err := vchReload(lc)
+		if err != nil {
+			return err
+		}
+		before = c.reloadDump(old)
+		return nil
+	}); r != "ok" {
+		extra["err_"+vchNames[p]] = "reload:" + r
+		c.abort = "reload_" + vchNames[p] + ":" + r
+		c.record(op, "reload_failed", extra)
+		return
+	}
+	extra["reload_before"] = before
+
+	c.db[p].arm(k)
+	var res string
+	switch call {
+	case "sign":
+		res = vchSafe(func() error {
+			_, err := lc.SignNextCommitment(ctxb)
+			return err
+		})
+	case "revoke":
+		extra["rev_height"] = lc.commitChains.Local.tail().height
+		res = vchSafe(func() error {
+			_, _, _, err := lc.RevokeCurrentCommitment()
+			return err
+		})
+	case "deliver":
+		m := c.q[p][0]
+		extra["kind"] = vchKind(m)
+		res = c.deliverMsg(p, m)
+	}
+	committed, refused := c.db[p].disarm()
+	extra["call_res"] = res
+	extra["committed"] = committed
+	extra["refused"] = refused
+	if c.maxTx != nil && refused == 0 {
+		kind := call
+		if call == "deliver" {
+			kind = "deliver_" + extra["kind"].(string)
+		}
+		if committed > c.maxTx[kind] {
+			c.maxTx[kind] = committed
+		}
+	}
+	extra["dropped"] = []int{len(c.q[0]), len(c.q[1])}
+	c.q[0], c.q[1] = nil, nil
+	c.restartBoth(op, extra, p)
+}
+
+// crashPoint draws the number of transactions a crashed call of this kind
+// still commits: 0 .. n, n = most transactions a call of the kind was seen to
+// commit in this case (at least 1); with n > 1 the interior points 1 .. n-1 -
+// the node dies BETWEEN two transactions of one call - get 60 %.
+func (c *vchCtx) crashPoint(kind string) int {
+	n := c.maxTx[kind]
+	if n < 1 {
+		n = 1
+	}
+	if n > 1 && c.r.intn(5) < 3 {
+		return 1 + c.r.intn(n-1)
+	}
+	return c.r.intn(n + 1)
 }
 
 // ---------------------------------------------------------------------------
@@ -1167,19 +1510,39 @@ func (c *vchCtx) genMain() {
 		}
 		switch {
 		case c.windowOpen(p) && c.owes(p):
-			add(34, func() { c.signBiased(p) })
+			add(34, func() {
+				if c.crashIn && r.intn(9) == 0 {
+					c.doCrashIn(p, "sign", c.crashPoint("sign"))
+					return
+				}
+				c.signBiased(p)
+			})
 		case c.windowOpen(p):
 			add(1, func() { c.doSign(p) }) // empty commit_sig
 		}
 		if c.hasLtip(p) {
-			add(44, func() { c.revokeMaybeCut(p) })
+			add(44, func() {
+				if c.crashIn && r.intn(8) == 0 {
+					c.doCrashIn(p, "revoke", c.crashPoint("revoke"))
+					return
+				}
+				c.revokeMaybeCut(p)
+			})
 		}
 		if n := len(c.q[p]); c.canDeliver(p) {
 			w := 40
 			if n > 3 {
 				w = 60
 			}
-			add(w, func() { c.doDeliver(p) })
+			add(w, func() {
+				_, isRev := c.q[p][0].(*lnwire.RevokeAndAck)
+				if isRev && c.crashIn && r.intn(6) == 0 {
+					c.doCrashIn(p, "deliver",
+						c.crashPoint("deliver_rev"))
+					return
+				}
+				c.doDeliver(p)
+			})
 		}
 	}
 	if !(c.noFreshFee && c.ch[0].currentHeight == 0) && !c.noFee {
@@ -1608,6 +1971,8 @@ func (c *vchCtx) runScript(ops [][]any) {
 			c.doCrash(vchSide(op[1]))
 		case "cut":
 			c.doCut(int(vchNum(op[1])), int(vchNum(op[2])))
+		case "crashin":
+			c.doCrashIn(vchSide(op[1]), op[2].(string), int(vchNum(op[3])))
 		case "side":
 			c.doSide(vchSide(op[1]), op[2].(string))
 		case "drain":
@@ -1677,6 +2042,39 @@ func TestVerifChan(t *testing.T) {
 		sideDef = 1
 	}
 	sideOn := vEnvInt("VERIF_SIDE", sideDef) != 0
+	cutDef := int64(0)
+	if cutOn {
+		cutDef = 1
+	}
+	crashInOn := vEnvInt("VERIF_CRASHIN", cutDef) != 0
+
+	// kvdb backend below the channel DBs: VERIF_CHAN_BACKEND = bbolt | sqlite
+	// | mix (default; VERIF_CHAN_SQLITE_PCT percent of the cases on sqlite:
+	// 15 quick / 50 thorough).  sqlite needs the kvdb_sqlite build tag.
+	backendMode := os.Getenv("VERIF_CHAN_BACKEND")
+	if backendMode == "" {
+		backendMode = "mix"
+	}
+	sqlitePct := int64(15)
+	if vTier() == "thorough" {
+		sqlitePct = 50
+	}
+	sqlitePct = vEnvInt("VERIF_CHAN_SQLITE_PCT", sqlitePct)
+	switch backendMode {
+	case "bbolt":
+		sqlitePct = 0
+	case "sqlite":
+		sqlitePct = 100
+	case "mix":
+	default:
+		t.Fatalf("VERIF_CHAN_BACKEND=%q", backendMode)
+	}
+	if vchSqliteOpen == nil {
+		if backendMode == "sqlite" {
+			t.Fatalf("VERIF_CHAN_BACKEND=sqlite needs -tags kvdb_sqlite")
+		}
+		sqlitePct = 0
+	}
 
 	// Explicit schedules first: VERIF_CHAN_SCRIPT=<file> runs ONLY that
 	// file; VERIF_CHAN_CORPUS=<dir> runs every *.json of the directory
@@ -1711,7 +2109,24 @@ func TestVerifChan(t *testing.T) {
 			if err != nil {
 				t.Fatalf("CreateTestChannels(%s): %v", ty.name, err)
 			}
+			// Move both channels onto DBs of their own: chosen kvdb
+			// backend below a transaction-counting / crashing wrapper.
+			backend := "bbolt"
+			if int64(master.fork(uint64(ci)^0x5bd1e995).intn(100)) <
+				sqlitePct {
+
+				backend = "sqlite"
+			}
+			var dbs [2]*vchStopDB
+			for i, lc := range []*LightningChannel{a, b} {
+				dbs[i], err = vchMigrate(t, lc, backend, 18556-i)
+				if err != nil {
+					t.Fatalf("vchMigrate(%s): %v", backend, err)
+				}
+			}
 			c := &vchCtx{
+				db: dbs, backend: backend, crashIn: crashInOn,
+				maxTx: map[string]int{},
 				r: r, ct: ty.ct, ch: [2]*LightningChannel{a, b},
 				chanID: lnwire.NewChanIDFromOutPoint(
 					a.channelState.FundingOutpoint,
@@ -1736,7 +2151,8 @@ func TestVerifChan(t *testing.T) {
 			}
 			row := map[string]any{
 				"case": ci, "seed": vSeed(), "chan_type": ty.name,
-				"cfg": c.cfg(ty.name),
+				"backend": backend,
+				"cfg":     c.cfg(ty.name),
 				"init": map[string]any{
 					"a": c.partyDump(a), "b": c.partyDump(b),
 				},
